@@ -665,8 +665,12 @@ def run_check(prop: str, batches: list, tier: str) -> int:
             c0["samples"] = c0["samples"] + c1["samples"][:2]
             evidence["wall_s"] = round(evidence["wall_s"] + ev["wall_s"], 2)
             evidence["violations"] += ev["violations"]
-    os.makedirs(os.path.join(VERIF, "evidence"), exist_ok=True)
-    with open(os.path.join(VERIF, "evidence", prop + ".json"), "w") as f:
+    # evidence describes /repo itself: a run against another source tree (sensitivity self-test,
+    # VERIF_REPO_SRC) writes its report to the git-ignored scratch directory instead
+    foreign = os.path.realpath(boot.REPO_SRC) != os.path.realpath("/repo/src")
+    ev_dir = os.path.join(VERIF, "scratch", "evidence-foreign-tree") if foreign else os.path.join(VERIF, "evidence")
+    os.makedirs(ev_dir, exist_ok=True)
+    with open(os.path.join(ev_dir, prop + ".json"), "w") as f:
         json.dump(evidence, f, indent=1, default=str)
     if 1 in codes:
         return 1
